@@ -1156,6 +1156,41 @@ int main(int argc, char **argv)
             enum_polys(d, AH, seen, polys);
         enum_polys(4, AH1, seen, polys);
     }
+    // factored-form cubics and quartics: every multiset of 3 or 4 roots from {-2,..,3} (repeated roots, a root equal to
+    // the mean of the roots -- the depressed quartic's g == 0 branch --, symmetric root sets -- its f == 0 branch) and
+    // two real roots times an irreducible/irrational quadratic.  Their expanded coefficients lie outside the small
+    // coefficient boxes above (added after seeded change C30 -- swapped coefficients in the g == 0 branch -- escaped them)
+    {
+        auto mulp = [](const Poly &a, const Poly &b) {
+            Poly r(a.size() + b.size() - 1, mpq_class(0));
+            for (size_t i = 0; i < a.size(); i++)
+                for (size_t j = 0; j < b.size(); j++)
+                    r[i + j] += a[i] * b[j];
+            return r;
+        };
+        auto lin = [](int r) { return Poly{mpq_class(-r), mpq_class(1)}; };
+        auto addp = [&](Poly p) {
+            trim(p);
+            std::vector<std::string> key_;
+            for (auto &c : p)
+                key_.push_back(c.get_str());
+            if (seen.insert(key_).second)
+                polys.push_back(p);
+        };
+        const int lo = -2, hi = thorough ? 4 : 3;
+        for (int a = lo; a <= hi; a++)
+            for (int b = a; b <= hi; b++)
+                for (int c = b; c <= hi; c++) {
+                    addp(mulp(mulp(lin(a), lin(b)), lin(c)));
+                    for (int d = c; d <= hi; d++)
+                        addp(mulp(mulp(lin(a), lin(b)), mulp(lin(c), lin(d))));
+                }
+        std::vector<Poly> quads = {{1, 0, 1}, {1, 1, 1}, {-2, 0, 1}, {2, -2, 1}};
+        for (int a = lo; a <= hi; a++)
+            for (int b = a; b <= hi; b++)
+                for (auto &q : quads)
+                    addp(mulp(mulp(lin(a), lin(b)), q));
+    }
     size_t npoly = 0;
     for (auto &p : polys)
         for (int dom : {D_UNIV, D_REALS, D_COMPLEXES}) {
@@ -1443,10 +1478,10 @@ int main(int argc, char **argv)
 
     R.states = polys.size() + (EQ.size() - npoly) + TR.size() + l2.n + l3.n;
     R.transitions = R.evaluations;
-    R.bound_completed = thorough ? "polynomials: degree<=4 coefficients [-2,2], degree<=3 over {0,+-1/2,+-1,+-2}, quartics over {0,+-1/2,+-1}; "
+    R.bound_completed = thorough ? "polynomials: degree<=4 coefficients [-2,2], degree<=3 over {0,+-1/2,+-1,+-2}, quartics over {0,+-1/2,+-1}, all cubics/quartics with roots in a multiset of {-2..4} and (x-a)(x-b)*quadratic; "
                                    "rational: P/Q, P/Q-c, P1/Q1+-P2/Q2 over products of <=2 linear factors with roots {0,1,-1,2} and x^2+1, x^2-2; "
                                    "trig a*F(b*x+c)=d full menu; linsolve 2x2 [-2,2] (A,b), 3x3 {-1,0,1} (A, all 27 b)"
-                                 : "polynomials: degree<=3 coefficients [-2,2], quartics over [-1,1]; rational: P/Q, P/Q-c, P1/Q1+-P2/Q2 over products of <=2 "
+                                 : "polynomials: degree<=3 coefficients [-2,2], quartics over [-1,1], all cubics/quartics with roots in a multiset of {-2..3} and (x-a)(x-b)*quadratic; rational: P/Q, P/Q-c, P1/Q1+-P2/Q2 over products of <=2 "
                                    "linear factors with roots {0,1,-1,2} (reduced menu for sums); trig a*F(b*x+c)=d reduced menu; linsolve 2x2 [-2,2] (A,b), "
                                    "3x3 {-1,0,1} (A, 3 right-hand sides)";
     R.rule = "E5: every equation of the stated families x domains {UniversalSet, Reals(, Complexes)} is solved by the real library; the returned Set is "
